@@ -351,7 +351,7 @@ func c01Held(c *Ctx) {
 func runC01(c *Ctx) {
 	c01Held(c)
 	c.Level = "exploration"
-	c.Rule = "every labelled graph on n vertices (all 2^(n(n-1)/2) edge sets; the set is closed under relabelling, so invariance under the two generators (0 1) and (0 1 .. n-1) of S_n for every member is invariance under all n! relabellings); plus one representative of every isomorphism class on 8 and 9 vertices under a battery of relabellings, disjoint unions of up to three small components under all transpositions and pseudo-random relabellings, whole relabelling-closed families of regular graphs on 8-10 vertices and hard named graphs (n<=16) and irregular graphs with 23-36 vertices (merge phase of the refinement's stable sort) under bounded-distance and pseudo-random relabellings; non-trivial = labelled graph with a non-trivial automorphism group (orbit smaller than n!) or regular (unit partition equitable, search must branch)"
+	c.Rule = "every labelled graph on n vertices (all 2^(n(n-1)/2) edge sets; the set is closed under relabelling, so invariance under the two generators (0 1) and (0 1 .. n-1) of S_n for every member is invariance under all n! relabellings); plus one representative of every isomorphism class on 8 and 9 vertices under a battery of relabellings, disjoint unions of up to three small components under all transpositions and pseudo-random relabellings, whole relabelling-closed families of regular graphs on 8-10 vertices and hard named graphs (n<=16) irregular graphs with 23-36 vertices and graphs with 67-81 vertices (canonical positions beyond one machine word) (merge phase of the refinement's stable sort) under bounded-distance and pseudo-random relabellings; non-trivial = labelled graph with a non-trivial automorphism group (orbit smaller than n!) or regular (unit partition equitable, search must branch)"
 	maxAll := 7
 	for n := 0; n <= maxAll; n++ {
 		c01Exhaust(c, n, "dense", classCounts[n])
@@ -395,6 +395,7 @@ func runC01(c *Ctx) {
 	c01Unions(c)
 	c01Reps(c)
 	c01Big(c)
+	c01Huge(c)
 	if c.Thorough() {
 		c01Exhaust(c, 8, "dense", classCounts[8])
 		c01Exhaust(c, 7, "sparse", classCounts[7])
@@ -462,6 +463,12 @@ func replayC01(kind string, raw json.RawMessage) *Failure {
 			return &Failure{Class: "canonical/returned-permutation-changed-by-a-later-call", What: fmt.Sprintf("%v became %v after a call returning %v", snap, p, q)}
 		}
 		return nil
+	case "canon-eg":
+		var ec egCanonCase
+		if err := json.Unmarshal(raw, &ec); err != nil {
+			return &Failure{Class: "replay/bad-file", What: err.Error()}
+		}
+		return checkEGInvariance(ec)
 	case "canon-big":
 		var bc bigCanonCase
 		if err := json.Unmarshal(raw, &bc); err != nil {
